@@ -577,7 +577,11 @@ class simplify_chained_calls(FuncADLNodeTransformer):
 
     def visit_Name(self, name_node):
         "Do lookup and see if we should translate or not."
-        return self._arg_stack.lookup_name(name_node.id, default=name_node)
+        replacement = self._arg_stack.lookup_name(name_node.id, default=None)
+        if replacement is None:
+            return name_node
+        # Each use gets its own copy: later rewrites edit nodes in place.
+        return copy.deepcopy(replacement)
 
     def visit_Attribute_Of_First(self, first: ast.expr, attr: str):
         """
